@@ -546,3 +546,169 @@ func c15Retry(o *c15Out, r *rand.Rand, tier string) error {
 	}
 	return nil
 }
+
+// ---------- family handle (round 4): a retry handle run on another client ----------
+
+// c15RunHandle: request rq is issued on client A (counter a) and interrupted before its
+// acknowledgement (the connection is cut, or the caller's context is cancelled); client B (counter
+// b) goes through history hB (some requests stay outstanding); then the ErrorWithRetry's handle is
+// run on B. Observed: what B puts on the wire, the retransmission included.
+func c15RunHandle(o *c15Out, a uint32, rq c15Req, cut bool, b uint32, hB []c15Ev) error {
+	if c15GiveUp() {
+		o.skipped++
+		return nil
+	}
+	ctx, cancel := ctxTimeout(5 * time.Minute)
+	defer cancel()
+	wA, err := c15NewWorld(false)
+	if err != nil {
+		return err
+	}
+	defer wA.close()
+	wA.s.cli.VerifSetIDLast(a)
+	recA := wA.newRec(0, 9999, rq)
+	wA.start(ctx, recA)
+	stuck := ""
+	if !wA.waitWrote(recA) {
+		stuck = "the request never reached the wire of client A"
+	}
+	var handle mqtt.ErrorWithRetry
+	if stuck == "" {
+		if cut {
+			wA.s.conn.Close()
+		} else {
+			recA.cancel()
+		}
+		if !wA.waitDone(recA) {
+			stuck = "the interrupted request did not return on client A"
+		} else if h, ok := recA.err.(mqtt.ErrorWithRetry); ok {
+			handle = h
+		} else {
+			stuck = fmt.Sprintf("the interrupted request returned no retry handle: %v", recA.err)
+		}
+	}
+	wB, err := c15NewWorld(false)
+	if err != nil {
+		return err
+	}
+	defer wB.close()
+	wB.s.cli.VerifSetIDLast(b)
+	var recs []*c15Rec
+	var obs, desc, hin []string
+	if stuck == "" {
+		recs, obs, desc, hin, stuck = c15Exec(o, wB, ctx, hB)
+	}
+	hreq := rq
+	if rq.Kind == 'p' {
+		hreq.Given = recA.obsID() // the message keeps the identifier it got on A
+	}
+	if stuck == "" {
+		recH := wB.newRec(0, 9999, hreq) // same topic as on A: the peer of B recognises the retransmission
+		go func() { recH.done <- handle.Retry(ctx, wB.s.cli) }()
+		if !wB.waitWrote(recH) {
+			stuck = "the retransmission never reached the wire of client B"
+		} else {
+			obs = append(obs, recH.coqIssue())
+			desc = append(desc, fmt.Sprintf("retry of A's %s->%d", rq.desc(), recH.obsID()))
+			// acknowledge the retransmission and whatever is still outstanding on B
+			wB.ack(recH)
+			if !wB.waitDone(recH) {
+				stuck = fmt.Sprintf("the retransmission (identifier %d on the wire of B) did not complete after its acknowledgement", recH.id)
+			}
+			for _, rec := range recs {
+				if stuck != "" {
+					break
+				}
+				if rec.req.tracked() && !rec.finished {
+					wB.ack(rec)
+					if !wB.waitDone(rec) {
+						stuck = fmt.Sprintf("request %s of B (identifier %d) did not complete after its acknowledgement", rec.tag, rec.id)
+					}
+				}
+			}
+		}
+	}
+	how := "context cancelled"
+	if cut {
+		how = "connection cut"
+	}
+	c := map[string]interface{}{"client_A_counter": a, "request_on_A": rq.desc(), "identifier_on_A": recA.obsID(),
+		"interrupted_by": how, "client_B_counter": b, "history_on_B": c15Descs(hB), "observed_on_B": desc}
+	if stuck != "" {
+		o.violation("stuck", map[string]interface{}{"scenario": c, "what": stuck})
+	}
+	for _, an := range append(append([]string{}, wA.anomaly...), wB.anomaly...) {
+		o.violation("anomaly", an)
+	}
+	o.handle = append(o.handle, cTuple(cN(uint64(a)), "("+rq.coq()+")", cN(uint64(b)), cListInline(hin), cListInline(obs)))
+	o.m.Families["handle"] = append(o.m.Families["handle"], c)
+	o.requests += len(recs) + 2
+	o.kinds["retry_handle_"+rq.desc0()]++
+	o.nontriv[fmt.Sprint("handle", a, rq.desc(), cut, b, c15Descs(hB))] = true
+	if o.handleSamples < 1 && len(recs) >= 2 && len(recs) <= 5 {
+		o.handleSamples++
+		o.m.Samples = append(o.m.Samples, c)
+	}
+	return nil
+}
+
+func c15Handle(o *c15Out, r *rand.Rand, tier string) error {
+	n := 60
+	switch tier {
+	case "thorough":
+		n = 600
+	case "search":
+		n = 150
+	}
+	two := []c15Ev{{Req: c15Req{Kind: 'p', QoS: 1}}, {Req: c15Req{Kind: 'p', QoS: 1}}}
+	// the shape of the round-4 seeded change: both counters equal, B holds the two identifiers A's
+	// counter would produce next
+	for _, s := range []uint32{100, 0xFFFD, 0xFFFFFFFE} {
+		for _, rq := range []c15Req{{Kind: 's'}, {Kind: 'u'}, {Kind: 'p', QoS: 1}, {Kind: 'p', QoS: 2, Given: 0x1234}} {
+			for _, cut := range []bool{false, true} {
+				b := s
+				if rq.Kind == 'p' {
+					// a retransmitted publish keeps its identifier: the application must not have the
+					// same identifier in use on B (environment assumption), so B's counter is elsewhere
+					b = s + 1000
+				}
+				if err := c15RunHandle(o, s, rq, cut, b, two); err != nil {
+					return err
+				}
+			}
+		}
+	}
+	for i := 0; i < n; i++ {
+		a := c15PickStart(r)
+		b := a
+		switch r.Intn(5) {
+		case 0:
+			b = a + uint32(r.Intn(4))
+		case 1:
+			b = a - uint32(r.Intn(3))
+		case 2:
+			b = c15PickStart(r)
+		}
+		rq := c15RandReq(r)
+		for !rq.tracked() {
+			rq = c15RandReq(r)
+		}
+		if rq.Kind == 'p' && r.Intn(3) == 0 {
+			rq.Given = uint16(30000 + r.Intn(1000))
+		}
+		if rq.Kind == 'p' {
+			idA := rq.Given
+			if idA == 0 {
+				idA = c15Nth(a, 1)
+			}
+			for c15Pos(b, idA) < 100 { // keep the identifier the message carries out of B's way
+				b += 1000
+			}
+		}
+		hB := c15GenHistory(r, b, 2+r.Intn(8), []int{0, 0, 20}[r.Intn(3)], 0, 0)
+		if err := c15RunHandle(o, a, rq, r.Intn(2) == 0, b, hB); err != nil {
+			return err
+		}
+	}
+	return nil
+}
